@@ -279,10 +279,26 @@ func identity(run *ev.Run, unit int64, r *rand.Rand) {
 	if unit%3 == 0 {
 		emptyOrigin(run, unit, r, u)
 	}
+	if unit%3 == 1 {
+		missingKey(run, unit, r, u)
+	}
 	m, err := cfg.AsLogMap()
 	if err != nil {
 		run.Violate("aslogmap_refuses_distinct_origins", "AsLogMap refused a configuration without duplicates: "+err.Error(), unit, map[string]any{"yaml": string(yamlFor(u.Logs))})
 		return
+	}
+	// the witness map names exactly the configured origins' IDs: no second spelling, no legacy alias
+	for id := range m {
+		known := false
+		for _, l := range u.Logs {
+			if id == refnote.LogID(l.Origin) {
+				known = true
+			}
+		}
+		if !known {
+			run.Violate("witness_map_has_id_of_no_configured_origin", fmt.Sprintf("the witness map built from %d configured logs has %d entries; %q is the ID of none of the configured origins", len(u.Logs), len(m), id), unit, map[string]any{"yaml": string(yamlFor(u.Logs))})
+			break
+		}
 	}
 	keys, _ := wit.NewWitKeys(r, []bool{false, true}, true)
 	witV := keys.Signers[1].(interface{ Verifier() note.Verifier }).Verifier()
@@ -396,6 +412,48 @@ func identity(run *ev.Run, unit int64, r *rand.Rand) {
 			run.Sample(map[string]any{"part": "identity", "origin": l.Origin, "ids": ids})
 		}
 	}
+}
+
+// missingKey: a configuration whose second entry has no PublicKey (omitted, or the field name misspelt so
+// that the decoder ignores it). Either the configuration is refused, or - if a witness can be built from it -
+// a checkpoint with that entry's origin signed by ANOTHER entry's key must be refused: no key was configured
+// for that ID, least of all a neighbour's.
+func missingKey(run *ev.Run, unit int64, r *rand.Rand, u *gen.Universe) {
+	a, b := u.Logs[0], u.Logs[1]
+	oa, _ := json.Marshal(a.Origin)
+	ob, _ := json.Marshal(b.Origin)
+	ka, _ := json.Marshal(a.Key.Vkey())
+	second := fmt.Sprintf("  - Origin: %s\n    URL: \"http://log.invalid/b/\"\n    Feeder: none\n", ob)
+	if r.IntN(2) == 0 {
+		kb, _ := json.Marshal(b.Key.Vkey())
+		second = fmt.Sprintf("  - Origin: %s\n    URL: \"http://log.invalid/b/\"\n    Publickey: %s\n    Feeder: none\n", ob, kb)
+	}
+	y := "Logs:\n" + fmt.Sprintf("  - Origin: %s\n    URL: \"http://log.invalid/a/\"\n    PublicKey: %s\n    Feeder: none\n", oa, ka) + second
+	run.Count("evaluations")
+	run.Count("configs_with_an_entry_without_key")
+	var cfg omniwitness.LogConfig
+	if err := yaml.Unmarshal([]byte(y), &cfg); err != nil {
+		run.Count("config_without_key_refused")
+		return
+	}
+	m, err := cfg.AsLogMap()
+	if err != nil {
+		run.Count("config_without_key_refused")
+		return
+	}
+	keys, _ := wit.NewWitKeys(r, []bool{false, true}, true)
+	wit.EnsureMetrics(nil)
+	w, err := witness.New(witness.Opts{Persistence: inmemory.NewPersistence(), Signers: keys.Signers, KnownLogs: m})
+	if err != nil {
+		run.Count("config_without_key_refused")
+		return
+	}
+	text := refnote.Body(b.Origin, 3, b.Root(0, 3))
+	cp := refnote.Assemble(text, a.Key.SigLine(text)) // b's origin, signed by a's key
+	if _, err := w.Update(context.Background(), refnote.LogID(b.Origin), 0, cp, nil); err == nil {
+		run.Violate("entry_without_key_verifies_under_a_neighbours_key", "a configuration whose second entry has no PublicKey was accepted, and the witness built from it cosigned a checkpoint of that entry's origin signed by the first entry's key", unit, map[string]any{"yaml": y})
+	}
+	run.Distinct("nontrivial", "id/entry_without_key")
 }
 
 // emptyOrigin: a configuration entry whose Origin is omitted or empty, next to an entry whose origin is
